@@ -211,7 +211,7 @@ def compactify_sites(prog: Program, rep: Report) -> None:
 
 
 def create_rules(prog: Program, rep: Report) -> None:
-    fi = prog.role_func("output", "create_netcdf")
+    fi = prog.lview(prog.role_func("output", "create_netcdf"))
     src = unparse(fi.node)
     m = [n for n in walk_no_nested(fi.node) if isinstance(n, ast.Assign) and unparse(n.targets[0]) == "self.local_num_records"]
     ok = len(m) == 1 and unparse(m[0].value) in ("min(self.numrec, self.num_records - self.record_count)", "min(self.num_records - self.record_count, self.numrec)")
@@ -240,8 +240,18 @@ def create_rules(prog: Program, rep: Report) -> None:
     inst = [n for n in walk_no_nested(fi.node) if isinstance(n, ast.Call) and unparse(n.func) == "nc.createVariable" and len(n.args) >= 3 and unparse(n.args[2]) == "instance_dim"]
     part = [n for n in walk_no_nested(fi.node) if isinstance(n, ast.Call) and unparse(n.func) == "nc.createVariable" and len(n.args) >= 3 and unparse(n.args[2]) == "('particle',)"]
     rep.check("R06.2", fi.qual, "instance variables on the instance dimension, particle variables on `particle`", len(inst) == 1 and len(part) >= 1, what_bad=f"{len(inst)} instance / {len(part)} particle variable creations", what_ok="ok", loc=fi.loc())
-    idim = [n for n in walk_no_nested(fi.node) if isinstance(n, (ast.Assign, ast.AnnAssign)) and unparse(n.targets[0] if isinstance(n, ast.Assign) else n.target) == "instance_dim"]
-    vals = sorted(unparse(n.value) for n in idim)
+    def values_of(name: str, seen=()) -> list:
+        """every value the local may hold, following plain renamings (result of an inlined helper)"""
+        out = []
+        for n in walk_no_nested(fi.node):
+            if isinstance(n, (ast.Assign, ast.AnnAssign)) and unparse(n.targets[0] if isinstance(n, ast.Assign) else n.target) == name and n.value is not None:
+                if isinstance(n.value, ast.Name) and n.value.id not in seen:
+                    out += values_of(n.value.id, seen + (name,))
+                else:
+                    out.append(unparse(n.value))
+        return out
+
+    vals = sorted(values_of("instance_dim"))
     rep.check("R06.2", fi.qual, "instance_dim = (time, particle) when dense, (particle_instance,) when sparse", vals == ["('particle_instance',)", "('time', 'particle')"], what_bad=f"{vals}", what_ok="ok", loc=fi.loc())
 
 
@@ -261,6 +271,11 @@ def particle_variable_rules(prog: Program, rep: Report) -> None:
 
     from ..program import _Subst
 
+    # module-level constants (a named dtype) read by the loop are expanded as well
+    local_names = {x.id for x in ast.walk(fi.node) if isinstance(x, ast.Name) and isinstance(x.ctx, ast.Store)} | set(fi.params)
+    for k, v in fi.module.constants.items():
+        if k not in local_names and k not in pre and k.isupper() or (k.startswith("_") and k[1:].isupper() and k not in local_names and k not in pre):
+            pre[k] = v
     pre = {k: _Subst(dict(pre)).visit(copy.deepcopy(v)) for k, v in pre.items()}
     n_time = n_plain = 0
     extents = set()
